@@ -28,8 +28,8 @@ def handle (case obs : List String) : String × String :=
     let msgs := obsMsgs obs
     let vp := validPrefix c
     (m, verdict [("no-panic-no-hang", !obs.any isBad),
-                 ("every-poll-completes", obs.length == c.npolls),
+                 ("every-poll-completes", (obs.filter (fun t => tokKind t ≠ 'a')).length == c.npolls),
                  ("messages-are-valid-prefix-of-input", msgs.length ≤ vp.length && vp.take msgs.length == msgs),
-                 ("first-error-final", (afterFirstErr obs).all (fun t => t = "n"))])
+                 ("first-error-final", ((afterFirstErr obs).filter (fun t => tokKind t ≠ 'a')).all (fun t => t = "n"))])
   | _, _ => bad
 end DriverC07
